@@ -518,6 +518,7 @@ var dslPool = []string{
 	`false`,
 	``,
 	`request.method == `,
+	`request.method`, // compiles, but is not a boolean
 }
 
 var varNames = []string{types.VarPath, types.VarMethod, types.VarQueryString, types.VarScheme, types.VarHost, "verif_undefined_variable"}
@@ -745,9 +746,20 @@ func genRequest(c *hx.Ctx, r *hx.Rng, vhs []vhost) request {
 
 var upSeq int
 
+// compiles: NewRouteBase accepts the rule (AddRoute refuses it otherwise)
 func compiles(r rule) bool {
 	if r.regex != "" {
 		if _, err := regexp.Compile(r.regex); err != nil {
+			return false
+		}
+	}
+	for _, v := range r.vars {
+		if v.regex != "" {
+			if _, err := regexp.Compile(v.regex); err != nil {
+				return false
+			}
+		}
+		if m := strings.ToLower(v.model); m != "" && m != "and" && m != "or" {
 			return false
 		}
 	}
